@@ -273,8 +273,10 @@ def atom_key(a):
 def summ(v):
     if v is None or isinstance(v, (bool, int, str)):
         return v
-    if isinstance(v, (float, complex)):
-        return repr(v)
+    if isinstance(v, float):
+        return repr(float(v))          # numpy float64 is a float: same text as a python float
+    if isinstance(v, complex):
+        return repr(complex(v))
     t = type(v)
     mod = t.__module__ or ""
     name = t.__name__
@@ -469,7 +471,8 @@ def _capture(fn):
         fn()
     finally:
         sys.stdout = old
-    text = buf.getvalue()
+    import re
+    text = re.sub(r"0x[0-9a-fA-F]+", "0x?", buf.getvalue())   # object addresses are not values
     lines = text.splitlines()
     return {"lines": len(lines), "sha": _sha(text.encode("utf8"))[:16], "head": lines[:2]}
 
